@@ -117,10 +117,36 @@ DownClause(pkts, crtps, final) ==
     ELSE IF final /\ Len(crtps) # Len(CrtpsOf(pkts)) THEN "TunnelDownLost"
     ELSE "ok"
 
-\* (5) CRTP through CPX, uplink: sent = CRTP packets given to send_packet, tx = all bytes the
-\*     driver wrote to the socket; the peer parses tx.  Checked when all sends have returned.
+\* (5) CRTP through CPX, uplink -- and, more generally, what the library writes to the socket.
+\*     sent = <<sender, item>> in the order of the calls (send_packet / sendPacket entered), where
+\*            item = <<0, c>>  the CRTP packet c = <<port, chan, data>> a caller handed to the CRTP
+\*                             driver's send_packet (as the caller built it: a caller that hands the
+\*                             same packet object over again has sent the same packet again),
+\*                   <<1, o>>  a CPX packet (outcome tuple o) an application handed to CPX.sendPacket
+\*                             on the same link;
+\*     tx   = all bytes written to the socket, in the order of the socket writes; the peer parses tx.
+\*     Checked when no call is in progress.  Several threads may send through one link (the
+\*     quantifier ranges over schedules); the peer cannot tell threads apart, so packets are
+\*     attributed by content: a sender owns the CRTP ports / CPX functions it uses (two senders never
+\*     share one -- OwnKeys, a condition on the input), and what the peer parsed of a sender's ports /
+\*     functions must be exactly what that sender handed over, in its order.  With one sender this is
+\*     "the CRTP packets the peer parsed = the CRTP packets sent" (the clause as it was).
+\*     Packets the library writes on its own account (the SYSTEM packet of connect()) are not in
+\*     sent; non-CRTP packets of functions nobody owns are not judged.
+ItemOf(p) == IF CarriesCrtp(p) THEN <<0, CrtpOfData(Data(p))>> ELSE <<1, Out(p)>>
+KeyOf(it) == IF it[1] = 0 THEN <<0, it[2][1]>> ELSE <<1, it[2][4]>>
+SendersOf(sent) == {sent[i][1] : i \in DOMAIN sent}
+Owns(sent, s, k) == \E i \in DOMAIN sent : sent[i][1] = s /\ KeyOf(sent[i][2]) = k
+OwnKeys(sent) == \A i, j \in DOMAIN sent : KeyOf(sent[i][2]) = KeyOf(sent[j][2]) => sent[i][1] = sent[j][1]
+SentBy(sent, s) == LET sel == SelectSeq(sent, LAMBDA e : e[1] = s) IN [i \in DOMAIN sel |-> sel[i][2]]
+ParsedItems(tx) == [i \in DOMAIN Frames(tx) |-> ItemOf(Unwire(Frames(tx)[i]))]
 UpClause(sent, tx) ==
     IF ~WellFramed(tx) THEN "TunnelUpFraming"
-    ELSE LET ps == [i \in DOMAIN Frames(tx) |-> Unwire(Frames(tx)[i])]
-         IN  IF CrtpsOf(ps) # sent THEN "TunnelUp" ELSE "ok"
+    ELSE LET items == ParsedItems(tx)
+         IN  IF \E i \in DOMAIN items : items[i][1] = 0 /\ \A s \in SendersOf(sent) : ~Owns(sent, s, KeyOf(items[i]))
+             THEN "TunnelUp"        \* a CRTP packet arrived that nobody sent
+             ELSE IF \E s \in SendersOf(sent) :
+                        SelectSeq(items, LAMBDA it : Owns(sent, s, KeyOf(it))) # SentBy(sent, s)
+             THEN "TunnelUp"
+             ELSE "ok"
 =============================================================================
